@@ -4,20 +4,22 @@
    - probe_contig_noninterference : after the GENERATED prologue of scan_impl, two
      states that agree on the persistent-by-API cells agree on every cell the
      evaluation may read (under the bitmap-guard invariant);
-   - history_independence_contiguous : for every history, the probe's evaluation on
-     the used scanner starts from the same visible state as on a fresh scanner
-     carrying only what the API says persists;
-   - history_independence_block_patterns : the same for block mode, except for the
-     cells filesize / module fields / per-thread caches / snippets;
-   - history_independence_refuted : the unrestricted statement is false in the
-     model (six witnesses: each names the cell that leaks). *)
+   - history_independence : for every history, the probe's evaluation (contiguous
+     or block mode) starts on the used scanner from the same visible state as on a
+     fresh scanner carrying only what the API says persists, for rules that import
+     no module with a per-thread cache that is not scan-scoped;
+   - history_independence_contiguous / _block : the same for any rules, under the
+     guard / except the cells that the remaining finding is about (per-thread caches
+     of pe, elf, macho, dex, crx, magic, cuckoo);
+   - history_independence_refuted : without that restriction the statement is false
+     in the model (two witnesses). *)
 From Coq Require Import List String NArith ZArith Bool Lia.
 From YV Require Import Gen.ScanState Scanner.State.
 Import ListNotations.
 Local Open Scope N_scope.
 
-Ltac sym := cbv -[N.eqb N.add clamp N.min N.testbit N.leb N.shiftl N.shiftr N.lor N.succ probe_tag tl_module tl_cleared_by_main DEFAULT_SCAN_TIMEOUT].
-Ltac sym_in H := cbv -[N.eqb N.add clamp N.min N.testbit N.leb N.shiftl N.shiftr N.lor N.succ probe_tag tl_module tl_cleared_by_main DEFAULT_SCAN_TIMEOUT] in H.
+Ltac sym := cbv -[N.eqb N.add clamp N.min N.testbit N.leb N.shiftl N.shiftr N.lor N.succ probe_tag tl_module tl_cleared_by_main tl_scan_scoped DEFAULT_SCAN_TIMEOUT].
+Ltac sym_in H := cbv -[N.eqb N.add clamp N.min N.testbit N.leb N.shiftl N.shiftr N.lor N.succ probe_tag tl_module tl_cleared_by_main tl_scan_scoped DEFAULT_SCAN_TIMEOUT] in H.
 
 Ltac goal_atoms :=
   repeat match goal with
@@ -60,6 +62,8 @@ Lemma reset_body_not_recursive :
                     | _ => true end) reset_body = true.
 Proof. reflexivity. Qed.
 
+Ltac dcell c f t := destruct c as [f| | | | | | | | | | | | | | |t].
+
 Definition agree (st1 st2 : state) : Prop := forall c, is_persistent c = true -> st1 c = st2 c.
 
 Lemma ginv_guard_false : forall st, ginv st = true ->
@@ -80,10 +84,18 @@ Ltac use_ginv :=
       destruct (ginv_guard_false st G K M) as (a & b & c); clear G; try rewrite a; try rewrite b; try rewrite c
   end.
 
-(* no user-supplied output is pending for a module that owns a per-thread cache *)
+(* no user-supplied output is pending for a module that owns a per-thread
+   cache which is not scan-scoped (the remaining finding) *)
 Definition tl_guard (R : rules_env) (st : state) : Prop :=
-  forall t, r_imported R (tl_module t) = true ->
+  forall t, r_imported R (tl_module t) = true -> tl_scan_scoped t = false ->
     N.testbit (st (CF ctx_user_provided_module_outputs)) (r_mod_bit R (tl_module t)) = false.
+
+(* the rules import no module with a per-thread cache that is not scan-scoped *)
+Definition scoped_only (R : rules_env) : Prop :=
+  forall t, r_imported R (tl_module t) = true -> tl_scan_scoped t = true.
+
+Lemma scoped_only_guard : forall R st, scoped_only R -> tl_guard R st.
+Proof. intros R st S t I N. rewrite (S t I) in N. discriminate N. Qed.
 
 (* GENERATED fact: every module main re-initialises every per-thread cache of its module *)
 Lemma all_tl_cleared : forall t, tl_cleared_by_main t = true.
@@ -96,13 +108,15 @@ Lemma probe_contig_noninterference : forall R i st1 st2,
 Proof.
   intros R i st1 st2 G1 G2 A T c V.
   assert (T2 : tl_guard R st2).
-  { intros t Ht. rewrite <- (A (CF ctx_user_provided_module_outputs) eq_refl). apply T, Ht. }
-  destruct c as [f| | | | | | | | | | | | | |t]; [destruct f|..]; try discriminate V;
-  try (specialize (T t V); specialize (T2 t V); sym_in V; sym_in T; sym_in T2);
-  sym;
+  { intros t Ht Hs. rewrite <- (A (CF ctx_user_provided_module_outputs) eq_refl). apply T; assumption. }
+  dcell c f t; [destruct f|..]; try discriminate V;
+  try (specialize (T t V); specialize (T2 t V); sym_in V; sym_in T; sym_in T2;
+       destruct (tl_scan_scoped t) eqn:SC; [clear T T2|specialize (T eq_refl); specialize (T2 eq_refl)]);
+  sym; try rewrite SC;
   repeat match goal with |- context [st1 ?c] => rewrite (A c eq_refl) end;
   try rewrite all_tl_cleared;
-  goal_atoms; use_ginv; try rewrite V; try rewrite T2; try reflexivity; props; try lia.
+  goal_atoms; use_ginv; try rewrite V; try rewrite T2; try reflexivity; props; try lia;
+  repeat match goal with |- context [if ?b then _ else _] => destruct b end; reflexivity.
 Qed.
 
 (* every transient cell has its fresh value (or a value determined by the
@@ -122,61 +136,59 @@ Lemma contig_prologue_establishes : forall R i st, ginv st = true -> tl_guard R 
     probe_contig R i st c = established_contig R i st c.
 Proof.
   intros R i st G T c C V.
-  destruct c as [f| | | | | | | | | | | | | |t]; [destruct f|..]; try discriminate C; try discriminate V;
-  try (specialize (T t V); sym_in V; sym_in T);
-  sym; try rewrite all_tl_cleared;
-  goal_atoms; use_ginv; try rewrite V; try rewrite T; try reflexivity; props; try lia.
+  dcell c f t; [destruct f|..]; try discriminate C; try discriminate V;
+  try (specialize (T t V); sym_in V; sym_in T; destruct (tl_scan_scoped t) eqn:SC; [clear T|specialize (T eq_refl)]);
+  sym; try rewrite SC; try rewrite all_tl_cleared;
+  goal_atoms; use_ginv; try rewrite V; try rewrite T; try reflexivity; props; try lia;
+  repeat match goal with |- context [if ?b then _ else _] => destruct b end; reflexivity.
 Qed.
 
-(* ---- block mode: what the first block's prologue re-establishes ---- *)
+(* ---- block mode ---- *)
+(* what a block scanner's state satisfies whatever happened before: the
+   whole-file cells are undefined and no snippet is left once a sequence is closed *)
+Definition binv (st : state) : Prop :=
+  ((st CKind =? 0) = false -> st CGFilesize = 0 /\ st CRootModules = 0) /\
+  ((st (CF blk_needs_reset) =? 0) = false -> st (CF blk_snippets) = 0).
+
+(* the cells of the remaining finding: per-thread caches that are not scan-scoped *)
 Definition block_leak (c : cell) : bool :=
-  match c with
-  | CGFilesize | CRootModules | CTL _ | CF blk_snippets => true
-  | _ => false
-  end.
+  match c with CTL t => negb (tl_scan_scoped t) | _ => false end.
 
 Lemma probe_block_noninterference : forall R i st1 st2,
-  ginv st1 = true -> ginv st2 = true -> agree st1 st2 ->
+  ginv st1 = true -> ginv st2 = true -> agree st1 st2 -> binv st1 -> binv st2 ->
+  (st1 CKind =? 0) = false ->
   (st1 (CF blk_needs_reset) =? 0) = false -> (st2 (CF blk_needs_reset) =? 0) = false ->
   forall c, visible R true c = true -> block_leak c = false ->
     probe_block R i st1 c = probe_block R i st2 c.
 Proof.
-  intros R i st1 st2 G1 G2 A N1 N2 c V L.
-  destruct c as [f| | | | | | | | | | | | | |t]; [destruct f|..]; try discriminate V; try discriminate L;
-  sym; rewrite ?N1, ?N2;
+  intros R i st1 st2 G1 G2 A [K1 S1] [K2 S2] KK N1 N2 c V L.
+  assert (KK2 : (st2 CKind =? 0) = false) by (rewrite <- (A CKind eq_refl); exact KK).
+  destruct (K1 KK) as [F1 M1]. destruct (K2 KK2) as [F2 M2]. specialize (S1 N1). specialize (S2 N2).
+  dcell c f t; [destruct f|..]; try discriminate V; try discriminate L;
+  try (cbn in L; apply negb_false_iff in L);
+  sym; rewrite ?N1, ?N2; try rewrite L;
   repeat match goal with |- context [st1 ?c] => rewrite (A c eq_refl) end;
-  goal_atoms; use_ginv; try reflexivity; props; try lia.
+  goal_atoms; use_ginv; try reflexivity; props; try lia; try congruence.
 Qed.
 
 (* ---- histories ---- *)
-Definition moderr_ok (sp : state) (o : op) : bool :=
-  match o with
-  | OScan _ _ (ModErr _) => sp (CF ctx_user_provided_module_outputs) =? 0
-  | _ => true
-  end.
-Fixpoint hist_ok (sp : state) (h : list op) : bool :=
-  match h with [] => true | o :: h' => moderr_ok sp o && hist_ok (spec_step o sp) h' end.
-
-Lemma step_agree : forall R o st sp, agree st sp -> moderr_ok sp o = true ->
-  agree (step R o st) (spec_step o sp).
+Lemma step_agree : forall R o st sp, agree st sp -> agree (step R o st) (spec_step o sp).
 Proof.
-  intros R o st sp A M c P.
+  intros R o st sp A c P.
   assert (K : st CKind = sp CKind) by (apply A; reflexivity).
-  destruct c as [f| | | | | | | | | | | | | |t]; [destruct f|..]; try discriminate P;
+  dcell c f t; [destruct f|..]; try discriminate P;
   destruct o as [i e oc| | | | | | | |i e oc|e oc|e]; try destruct oc;
-  sym; sym_in M; rewrite ?K;
+  sym; rewrite ?K;
   repeat match goal with |- context [st ?c] => rewrite (A c eq_refl) end;
-  goal_atoms; try reflexivity; props;
-  try (rewrite M; rewrite N.shiftr_0_l, N.shiftl_0_l; reflexivity).
+  goal_atoms; try reflexivity; props; try congruence.
 Qed.
 
-Lemma run_agree : forall R h st sp, agree st sp -> hist_ok sp h = true ->
+Lemma run_agree : forall R h st sp, agree st sp ->
   agree (run R h st) (fold_left (fun s o => spec_step o s) h sp).
 Proof.
-  intros R h. induction h as [|o h IH]; intros st sp A H; cbn in *.
+  intros R h. induction h as [|o h IH]; intros st sp A; cbn in *.
   - exact A.
-  - apply andb_true_iff in H. destruct H as [H1 H2].
-    apply IH; [apply step_agree; assumption | exact H2].
+  - apply IH, step_agree, A.
 Qed.
 
 Lemma ginv_iff : forall st, ginv st = true <->
@@ -195,17 +207,13 @@ Proof.
   intros E st G. apply ginv_iff in G. apply ginv_iff. sym. goal_atoms; props; try tauto; try lia.
 Qed.
 
-Ltac symr := cbv -[N.eqb N.add clamp N.min N.testbit N.leb N.shiftl N.shiftr N.lor N.succ probe_tag tl_module tl_cleared_by_main DEFAULT_SCAN_TIMEOUT do_reset].
+Ltac symr := cbv -[N.eqb N.add clamp N.min N.testbit N.leb N.shiftl N.shiftr N.lor N.succ probe_tag tl_module tl_cleared_by_main tl_scan_scoped DEFAULT_SCAN_TIMEOUT do_reset].
 
 Lemma step_ginv : forall R o st, wf_op o = true -> ginv st = true -> ginv (step R o st) = true.
 Proof.
   intros R o st W G.
   destruct o as [i e oc| | | | | | | |i e oc|e oc|e]; try destruct oc;
   unfold wf_op, wf_eff in W;
-  repeat match goal with
-  | |- context [do_reset ?E st] => let G' := fresh "G'" in
-      pose proof (do_reset_ginv E st G) as G'; apply ginv_iff in G'; revert G'; generalize (do_reset E st); intros st' G'
-  end;
   try (apply ginv_iff in W); apply ginv_iff in G; apply ginv_iff;
   symr;
   repeat match goal with
@@ -223,15 +231,28 @@ Proof.
   - apply andb_true_iff in W. destruct W as [W1 W2]. apply IH; [exact W2|]. apply step_ginv; assumption.
 Qed.
 
-Lemma spec_step_ginv : forall o sp, ginv sp = true -> ginv (spec_step o sp) = true.
+(* the specification state never leaves the fresh values outside the persistent cells *)
+Lemma spec_step_keeps : forall o sp c, is_persistent c = false -> spec_step o sp c = sp c.
 Proof.
-  intros o sp G. apply ginv_iff in G. apply ginv_iff.
-  destruct o as [i e oc| | | | | | | |i e oc|e oc|e]; sym; goal_atoms; try assumption; try tauto.
+  intros o sp c P. dcell c f t; [destruct f|..]; try discriminate P;
+  destruct o as [i e oc| | | | | | | |i e oc|e oc|e]; sym; goal_atoms; reflexivity.
+Qed.
+Lemma spec_fold_keeps : forall h sp c, is_persistent c = false ->
+  fold_left (fun s o => spec_step o s) h sp c = sp c.
+Proof.
+  induction h as [|o h IH]; intros sp c P; cbn; [reflexivity|]. rewrite IH by exact P. apply spec_step_keeps, P.
 Qed.
 
-Lemma spec_fold_ginv : forall h sp, ginv sp = true -> ginv (fold_left (fun s o => spec_step o s) h sp) = true.
+Lemma spec_persist_ginv : forall h, ginv (spec_persist h) = true.
 Proof.
-  induction h as [|o h IH]; intros sp G; cbn; [exact G|]. apply IH, spec_step_ginv, G.
+  intros h. unfold ginv, spec_persist. rewrite !spec_fold_keeps by reflexivity. reflexivity.
+Qed.
+
+Lemma spec_persist_binv : forall h, binv (spec_persist h).
+Proof.
+  intros h. unfold binv, spec_persist. split; intros _.
+  - rewrite (spec_fold_keeps h fresh CGFilesize eq_refl), (spec_fold_keeps h fresh CRootModules eq_refl). split; reflexivity.
+  - rewrite (spec_fold_keeps h fresh (CF blk_snippets) eq_refl). reflexivity.
 Qed.
 
 Lemma fresh_ginv : ginv fresh = true.
@@ -240,50 +261,95 @@ Proof. reflexivity. Qed.
 Lemma agree_refl : forall st, agree st st.
 Proof. intros st c _. reflexivity. Qed.
 
-(* ---- C04: history independence, contiguous scans ---- *)
+(* block-scanner invariant along histories *)
+Lemma do_reset_other : forall E st c,
+  match c with CKind | CGFilesize | CRootModules | CF blk_needs_reset | CF blk_snippets => True | _ => False end ->
+  do_reset E st c = st c.
+Proof.
+  intros E st c H. dcell c f t; [destruct f|..]; try contradiction; sym; goal_atoms; reflexivity.
+Qed.
+
+Lemma step_binv : forall R o st, binv st -> binv (step R o st).
+Proof.
+  intros R o st [K S].
+  destruct o as [i e oc| | | | | | | |i e oc|e oc|e]; try destruct oc; unfold binv;
+  symr;
+  repeat match goal with
+  | |- context [do_reset ?E st CKind] => rewrite (do_reset_other E st CKind I)
+  | |- context [do_reset ?E st CGFilesize] => rewrite (do_reset_other E st CGFilesize I)
+  | |- context [do_reset ?E st CRootModules] => rewrite (do_reset_other E st CRootModules I)
+  | |- context [do_reset ?E st (CF blk_needs_reset)] => rewrite (do_reset_other E st (CF blk_needs_reset) I)
+  | |- context [do_reset ?E st (CF blk_snippets)] => rewrite (do_reset_other E st (CF blk_snippets) I)
+  end;
+  destruct (st CKind =? 0) eqn:KK; destruct (st (CF blk_needs_reset) =? 0) eqn:NN;
+  cbv beta iota; rewrite ?KK, ?NN; cbv beta iota;
+  (split; [intros H; try discriminate H; try (destruct (K eq_refl); split; assumption); try (split; reflexivity)
+          |intros H; try discriminate H; try (apply S; reflexivity); try reflexivity]).
+Qed.
+
+Lemma run_binv : forall R h st, binv st -> binv (run R h st).
+Proof.
+  intros R h. induction h as [|o h IH]; intros st B; cbn; [exact B|]. apply IH, step_binv, B.
+Qed.
+
+Lemma fresh_binv : binv fresh.
+Proof. split; intros H; [discriminate H|reflexivity]. Qed.
+
+(* ---- C04: history independence ---- *)
 Theorem history_independence_contiguous : forall R h i,
   forallb wf_op h = true ->            (* effects respect how bitmap bits get set (checked on real digests by K) *)
-  hist_ok fresh h = true ->            (* no module error while user-supplied outputs are pending (known finding) *)
-  tl_guard R (spec_persist h) ->       (* no user-supplied output for a module owning a per-thread cache (known finding) *)
+  tl_guard R (spec_persist h) ->       (* no user-supplied output for a module owning a per-thread cache that is not scan-scoped (known finding) *)
   forall c, visible R false c = true ->
     probe_contig R i (run R h fresh) c = probe_contig R i (spec_persist h) c.
 Proof.
-  intros R h i W H T c V.
-  pose proof (run_agree R h fresh fresh (agree_refl fresh) H) as A.
+  intros R h i W T c V.
+  pose proof (run_agree R h fresh fresh (agree_refl fresh)) as A.
   apply probe_contig_noninterference; try assumption.
   - apply run_ginv; [exact W|exact fresh_ginv].
-  - apply spec_fold_ginv, fresh_ginv.
-  - intros t Ht. unfold spec_persist in T. rewrite (A (CF ctx_user_provided_module_outputs) eq_refl). apply T, Ht.
+  - apply spec_persist_ginv.
+  - intros t Ht Hs. unfold spec_persist in T. rewrite (A (CF ctx_user_provided_module_outputs) eq_refl). apply T; assumption.
 Qed.
 
-(* ---- C04/C14: block mode, everything but the four leaking cells ---- *)
-Lemma spec_needs_reset : forall h sp, sp (CF blk_needs_reset) = 1 ->
-  fold_left (fun s o => spec_step o s) h sp (CF blk_needs_reset) = 1.
-Proof.
-  induction h as [|o h IH]; intros sp H; cbn; [exact H|]. apply IH.
-  destruct o as [i e oc| | | | | | | |i e oc|e oc|e]; sym; goal_atoms; exact H.
-Qed.
-
-Theorem history_independence_block_patterns : forall R h i,
-  forallb wf_op h = true -> hist_ok fresh h = true ->
+Theorem history_independence_block : forall R h i,
+  forallb wf_op h = true ->
+  (spec_persist h CKind =? 0) = false ->
   (run R h fresh (CF blk_needs_reset) =? 0) = false ->     (* the history's last block sequence was finished *)
   forall c, visible R true c = true -> block_leak c = false ->
     probe_block R i (run R h fresh) c = probe_block R i (spec_persist h) c.
 Proof.
-  intros R h i W H NR c V L.
-  pose proof (run_agree R h fresh fresh (agree_refl fresh) H) as A.
+  intros R h i W K NR c V L.
+  pose proof (run_agree R h fresh fresh (agree_refl fresh)) as A.
   apply probe_block_noninterference; try assumption.
   - apply run_ginv; [exact W|exact fresh_ginv].
-  - apply spec_fold_ginv, fresh_ginv.
-  - unfold spec_persist. rewrite spec_needs_reset; reflexivity.
+  - apply spec_persist_ginv.
+  - apply run_binv, fresh_binv.
+  - apply spec_persist_binv.
+  - rewrite (A CKind eq_refl). exact K.
+  - unfold spec_persist. rewrite spec_fold_keeps by reflexivity. reflexivity.
 Qed.
 
-(* ---- the unrestricted statement and its refutation ---- *)
+(* the property, for both scanner kinds, for rules whose modules' per-thread caches are all scan-scoped *)
+Definition probe_of (R : rules_env) (h : list op) (i : N) (st : state) : state :=
+  if spec_persist h CKind =? 0 then probe_contig R i st else probe_block R i st.
+
+Theorem history_independence : forall R h i,
+  forallb wf_op h = true -> scoped_only R ->
+  (run R h fresh (CF blk_needs_reset) =? 0) = false ->
+  forall c, visible R (negb (spec_persist h CKind =? 0)) c = true ->
+    probe_of R h i (run R h fresh) c = probe_of R h i (spec_persist h) c.
+Proof.
+  intros R h i W S NR c V. unfold probe_of. destruct (spec_persist h CKind =? 0) eqn:K; cbn in V.
+  - apply history_independence_contiguous; try assumption. apply scoped_only_guard, S.
+  - apply history_independence_block; try assumption.
+    destruct c; try reflexivity. cbn. cbn in V. rewrite (S t V). reflexivity.
+Qed.
+
+(* ---- without the restriction on the rules the statement is false ---- *)
 Definition history_independence_stmt : Prop :=
   forall R h i, forallb wf_op h = true ->
+    (run R h fresh (CF blk_needs_reset) =? 0) = false ->
     forall c, visible R (negb (spec_persist h CKind =? 0)) c = true ->
-      (if spec_persist h CKind =? 0 then probe_contig R i (run R h fresh) c else probe_block R i (run R h fresh) c)
-      = (if spec_persist h CKind =? 0 then probe_contig R i (spec_persist h) c else probe_block R i (spec_persist h) c).
+      probe_of R h i (run R h fresh) c = probe_of R h i (spec_persist h) c.
 
 Definition R_all : rules_env := mkRules (fun _ => true) (fun m => N.of_nat (String.length m)).
 Definition clean : cell -> N := fun _ => 0.
@@ -292,141 +358,108 @@ Definition eff_tl : cell -> N := fun c => match c with CTL _ => 9 | _ => 0 end.
 
 (* witness: (history, probe input, leaking cell) *)
 Definition leaks (h : list op) (i : N) (c : cell) : Prop :=
-  forallb wf_op h = true /\ visible R_all (negb (spec_persist h CKind =? 0)) c = true /\
-  (if spec_persist h CKind =? 0 then probe_contig R_all i (run R_all h fresh) c else probe_block R_all i (run R_all h fresh) c)
-  <> (if spec_persist h CKind =? 0 then probe_contig R_all i (spec_persist h) c else probe_block R_all i (spec_persist h) c).
+  forallb wf_op h = true /\ (run R_all h fresh (CF blk_needs_reset) =? 0) = false /\
+  visible R_all (negb (spec_persist h CKind =? 0)) c = true /\
+  probe_of R_all h i (run R_all h fresh) c <> probe_of R_all h i (spec_persist h) c.
 
-(* 1. filesize stays defined after Scanner -> blocks::Scanner *)
-Lemma leak_filesize : leaks [OScan 5 clean Complete; OIntoBlocks] 3 CGFilesize.
+(* per-thread caches that are not scan-scoped, filled by any scan on the thread, are visible to a block scanner *)
+Lemma leak_tl_block : leaks [OOther eff_tl; OIntoBlocks] 3 (CTL tl_pe_IMPHASH_CACHE).
 Proof. repeat split; vm_compute; congruence. Qed.
-(* 2. the module fields of root_struct survive into block mode *)
-Lemma leak_module_fields : leaks [OScan 5 clean Complete; OIntoBlocks] 3 CRootModules.
-Proof. repeat split; vm_compute; congruence. Qed.
-(* 3. per-thread caches filled by another scanner are visible to a block scanner *)
-Lemma leak_tl_block : leaks [OOther eff_tl; OIntoBlocks] 3 (CTL tl_hash_MD5_CACHE).
-Proof. repeat split; vm_compute; congruence. Qed.
-(* 4. ... and to a contiguous scan whose hash output is supplied by the user ("hash" has length 4) *)
-Lemma leak_tl_user_output : leaks [OOther eff_tl; OSetModuleOutput 4] 3 (CTL tl_hash_MD5_CACHE).
-Proof. repeat split; vm_compute; congruence. Qed.
-(* 5. a module error leaves the user-supplied outputs of later modules in place *)
-Lemma leak_user_outputs_after_module_error :
-  leaks [OSetModuleOutput 11; OScan 5 clean (ModErr 6)] 3 CRootModules.
-Proof. repeat split; vm_compute; congruence. Qed.
-(* 6. a finish() that times out keeps the snippets of the abandoned scan *)
-Definition eff_snip : cell -> N := fun c => match c with CF blk_snippets => 2 | _ => 0 end.
-Lemma leak_snippets : leaks [OIntoBlocks; OSetTimeout 1; OBlockScan 1 eff_snip Complete; OBlockFinish clean TimedOut] 3 (CF blk_snippets).
+(* ... and to a contiguous scan whose output for that module is supplied by the user ("pe" has length 2) *)
+Lemma leak_tl_user_output : leaks [OOther eff_tl; OSetModuleOutput 2] 3 (CTL tl_pe_IMPHASH_CACHE).
 Proof. repeat split; vm_compute; congruence. Qed.
 
 Theorem history_independence_refuted : ~ history_independence_stmt.
 Proof.
-  intros H. destruct leak_filesize as (W & V & D). apply D. exact (H R_all _ 3 W CGFilesize V).
+  intros H. destruct leak_tl_block as (W & N & V & D). apply D. exact (H R_all _ 3 W N _ V).
 Qed.
+
+(* the repaired leaks no longer exist in the model: the same histories, the formerly leaking cells *)
+Lemma repaired_witnesses :
+  let eq h c := probe_of R_all h 3 (run R_all h fresh) c = probe_of R_all h 3 (spec_persist h) c in
+  eq [OScan 5 clean Complete; OIntoBlocks] CGFilesize /\
+  eq [OScan 5 clean Complete; OIntoBlocks] CRootModules /\
+  eq [OOther eff_tl; OIntoBlocks] (CTL tl_hash_MD5_CACHE) /\
+  eq [OOther eff_tl; OSetModuleOutput 4] (CTL tl_hash_MD5_CACHE) /\
+  eq [OOther eff_tl; OSetModuleOutput 4] (CTL tl_math_DISTRIBUTION_CACHE) /\
+  eq [OSetModuleOutput 11; OScan 5 clean (ModErr 6)] CRootModules /\
+  eq [OIntoBlocks; OSetTimeout 1; OBlockScan 1 (fun c => match c with CF blk_snippets => 2 | _ => 0 end) Complete; OBlockFinish clean TimedOut] (CF blk_snippets).
+Proof. cbv zeta. repeat split; vm_compute; reflexivity. Qed.
 
 (* the guarded theorems are not vacuous *)
-Example contiguous_hypotheses_satisfiable :
+Definition R_scoped : rules_env :=
+  mkRules (fun m => String.eqb m "hash" || String.eqb m "math" || String.eqb m "test_proto2")%bool (fun m => N.of_nat (String.length m)).
+Example scoped_only_satisfiable : scoped_only R_scoped.
+Proof. intros t. destruct t; cbn; intros H; try discriminate H; reflexivity. Qed.
+Example history_hypotheses_satisfiable :
   let h := [OSetTimeout 3; OScan 5 (fun c => match c with CMRuleBits | CF ctx_matching_rules | CPMKeys | CMPatBits => 2 | _ => 0 end) TimedOut;
-            OScan 6 clean (ModErr 2); OSetModuleOutput 11; OSetGlobal 4; OOther eff_tl] in
-  forallb wf_op h = true /\ hist_ok fresh h = true /\ tl_guard R_all (spec_persist h).
-Proof.
-  cbv zeta. split; [reflexivity|]. split; [reflexivity|].
-  intros t _. destruct t; reflexivity.
-Qed.
-Example block_hypotheses_satisfiable :
-  let h := [OScan 5 clean Complete; OIntoBlocks; OBlockScan 1 eff_snip Complete; OBlockFinish clean Complete] in
-  forallb wf_op h = true /\ hist_ok fresh h = true /\ (run R_all h fresh (CF blk_needs_reset) =? 0) = false.
+            OSetModuleOutput 11; OScan 6 clean (ModErr 2); OSetGlobal 4; OOther eff_tl; OIntoBlocks;
+            OBlockScan 1 (fun c => match c with CF blk_snippets => 2 | _ => 0 end) Complete; OBlockFinish clean TimedOut] in
+  forallb wf_op h = true /\ (run R_scoped h fresh (CF blk_needs_reset) =? 0) = false /\ (spec_persist h CKind =? 0) = false.
 Proof. repeat split. Qed.
+Example contiguous_guard_satisfiable :
+  let h := [OScan 6 clean (ModErr 2); OSetModuleOutput 11; OSetGlobal 4; OOther eff_tl] in
+  forallb wf_op h = true /\ tl_guard R_all (spec_persist h).
+Proof. cbv zeta. split; [reflexivity|]. intros t _ _. destruct t; reflexivity. Qed.
 
 (* ---- C14: whole-file notions in block mode ---- *)
-(* "filesize, module fields and per-thread caches are as in a fresh block
-   scanner, whatever happened before" *)
-Definition whole_file_undefined_stmt : Prop :=
-  forall R h i, forallb wf_op h = true -> (spec_persist h CKind =? 0) = false ->
-    forall c, block_leak c = true -> c <> CF blk_snippets -> visible R true c = true ->
-      probe_block R i (run R h fresh) c = fresh c.
+(* filesize, module fields and the scan-scoped per-thread caches are as in a
+   fresh block scanner, whatever the scanner or the thread did before *)
+Definition whole_file_cell (c : cell) : bool :=
+  match c with CGFilesize | CRootModules => true | CTL t => tl_scan_scoped t | _ => false end.
 
-Theorem whole_file_undefined_refuted : ~ whole_file_undefined_stmt.
+Theorem whole_file_undefined : forall R h i,
+  forallb wf_op h = true -> (spec_persist h CKind =? 0) = false ->
+  (run R h fresh (CF blk_needs_reset) =? 0) = false ->
+  forall c, whole_file_cell c = true -> probe_block R i (run R h fresh) c = fresh c.
+Proof.
+  intros R h i W K NR c WC.
+  pose proof (run_agree R h fresh fresh (agree_refl fresh)) as A.
+  assert (KK : (run R h fresh CKind =? 0) = false) by (rewrite (A CKind eq_refl); exact K).
+  destruct (run_binv R h fresh fresh_binv) as [B _]. destruct (B KK) as [F M].
+  revert NR F M. generalize (run R h fresh). intros st NR F M.
+  dcell c f t; [destruct f|..]; try discriminate WC; cbn in WC;
+  sym; rewrite ?NR, ?WC; cbn; goal_atoms; try assumption; reflexivity.
+Qed.
+
+(* it is still false for the per-thread caches that are not scan-scoped *)
+Definition whole_file_undefined_all_caches_stmt : Prop :=
+  forall R h i, forallb wf_op h = true -> (spec_persist h CKind =? 0) = false ->
+    (run R h fresh (CF blk_needs_reset) =? 0) = false ->
+    forall t, r_imported R (tl_module t) = true -> probe_block R i (run R h fresh) (CTL t) = 0.
+Theorem whole_file_undefined_all_caches_refuted : ~ whole_file_undefined_all_caches_stmt.
 Proof.
   intros H.
-  assert (X := H R_all [OScan 5 clean Complete; OIntoBlocks] 3 eq_refl eq_refl CGFilesize eq_refl ltac:(discriminate) eq_refl).
+  assert (X := H R_all [OOther eff_tl; OIntoBlocks] 3 eq_refl eq_refl eq_refl tl_pe_IMPHASH_CACHE eq_refl).
   vm_compute in X. discriminate X.
-Qed.
-
-(* it holds for a scanner that was created as a block scanner on a thread no
-   other scanner used: nothing in block mode writes these cells *)
-Definition block_only (o : op) : bool :=
-  match o with OScan _ _ _ | OOther _ | OIntoBlocks => false | _ => true end.
-
-Lemma block_step_keeps : forall R o st, block_only o = true -> (st CKind =? 0) = false ->
-  forall c, block_leak c = true -> c <> CF blk_snippets -> step R o st c = st c.
-Proof.
-  intros [imp mb] o st B K c L NS.
-  destruct c as [f| | | | | | | | | | | | | |t]; [destruct f|..]; try discriminate L; try congruence;
-  destruct o as [i e oc| | | | | | | |i e oc|e oc|e]; try discriminate B; try destruct oc;
-  sym; rewrite ?K; cbn; goal_atoms; try reflexivity; try congruence;
-  repeat match goal with |- context [imp ?x] => destruct (imp x) end; cbn; try reflexivity; try congruence.
-Qed.
-
-Lemma block_step_kind : forall R o st, block_only o = true -> (st CKind =? 0) = false ->
-  (step R o st CKind =? 0) = false.
-Proof.
-  intros R o st B K. destruct o as [i e oc| | | | | | | |i e oc|e oc|e]; try discriminate B; try destruct oc;
-  sym; rewrite ?K; cbn;
-  destruct (st (CF blk_needs_reset) =? 0); destruct (st CPMKeys =? 0);
-  destruct (st (CF ctx_matching_rules) + st (CF ctx_matching_rules_per_ns) =? 0); cbn; rewrite ?K;
-  try assumption; try reflexivity; try congruence.
-Qed.
-
-Lemma block_run_keeps : forall R h st, forallb block_only h = true -> (st CKind =? 0) = false ->
-  forall c, block_leak c = true -> c <> CF blk_snippets -> run R h st c = st c.
-Proof.
-  intros R h. induction h as [|o h IH]; intros st B K c L NS; [reflexivity|].
-  cbn [forallb] in B. apply andb_true_iff in B. destruct B as [B1 B2].
-  change (run R (o :: h) st c) with (run R h (step R o st) c).
-  rewrite IH; try assumption; [apply block_step_keeps; assumption | apply block_step_kind; assumption].
-Qed.
-
-Theorem whole_file_undefined_born_blocks : forall R h i,
-  forallb block_only h = true ->
-  forall c, block_leak c = true -> c <> CF blk_snippets ->
-    probe_block R i (run R (OIntoBlocks :: h) fresh) c = fresh c.
-Proof.
-  intros R h i B c L NS. cbn [run fold_left].
-  change (fold_left (fun s o => step R o s) h (step R OIntoBlocks fresh)) with (run R h (step R OIntoBlocks fresh)).
-  assert (E : forall st, probe_block R i st c = st c).
-  { intros st. destruct c as [f| | | | | | | | | | | | | |t]; [destruct f|..]; try discriminate L; try congruence;
-    sym; goal_atoms; reflexivity. }
-  rewrite E. rewrite block_run_keeps; try assumption; [|reflexivity].
-  destruct c as [f| | | | | | | | | | | | | |t]; [destruct f|..]; try discriminate L; try congruence; reflexivity.
 Qed.
 
 (* ---- C16: the scan after a timed-out scan starts clean ---- *)
 Theorem reset_after_timeout_clean : forall R h i0 e i,
-  forallb wf_op (h ++ [OScan i0 e TimedOut]) = true -> hist_ok fresh (h ++ [OScan i0 e TimedOut]) = true ->
+  forallb wf_op (h ++ [OScan i0 e TimedOut]) = true ->
   tl_guard R (spec_persist (h ++ [OScan i0 e TimedOut])) ->
   forall c, visible R false c = true ->
     probe_contig R i (run R (h ++ [OScan i0 e TimedOut]) fresh) c
     = probe_contig R i (spec_persist (h ++ [OScan i0 e TimedOut])) c.
 Proof. intros R h i0 e i. apply history_independence_contiguous. Qed.
 
+(* block mode: after a finish() that timed out, every visible cell (the snippets included) *)
 Theorem block_reset_after_timeout_clean : forall R h e i,
   let h' := h ++ [OBlockFinish e TimedOut] in
-  forallb wf_op h' = true -> hist_ok fresh h' = true ->
+  forallb wf_op h' = true ->
   (spec_persist h' CKind =? 0) = false ->
   forall c, visible R true c = true -> block_leak c = false ->
     probe_block R i (run R h' fresh) c = probe_block R i (spec_persist h') c.
 Proof.
-  intros R h e i h' W H K c V L.
-  apply history_independence_block_patterns; try assumption.
+  intros R h e i h' W K c V L.
+  apply history_independence_block; try assumption.
   (* finish() sets needs_reset before evaluating, also when it times out *)
   unfold h', run. rewrite fold_left_app. cbn [fold_left].
   set (st := fold_left (fun s o => step R o s) h fresh).
   assert (KK : (st CKind =? 0) = false).
   { pose proof (run_agree R h fresh fresh (agree_refl fresh)) as A.
-    unfold h' in H, K. unfold spec_persist in K. rewrite fold_left_app in K. cbn [fold_left] in K.
-    assert (HH : hist_ok fresh h = true).
-    { clear -H. revert H. generalize fresh. induction h as [|o h IH]; intros sp H; cbn in *; [reflexivity|].
-      apply andb_true_iff in H. destruct H as [H1 H2]. rewrite H1. cbn. apply IH, H2. }
-    specialize (A HH). unfold st. change (fold_left (fun s o => step R o s) h fresh) with (run R h fresh).
+    unfold h' in K. unfold spec_persist in K. rewrite fold_left_app in K. cbn [fold_left] in K.
+    unfold st. change (fold_left (fun s o => step R o s) h fresh) with (run R h fresh).
     rewrite (A CKind eq_refl). revert K. sym. goal_atoms; congruence. }
   clearbody st. sym. rewrite KK. cbn. goal_atoms; reflexivity.
 Qed.
